@@ -22,6 +22,9 @@ THEOREMS = {
     "C17_sorted_is_sorted": "full",
     "C17_sorted_equal_keys_refuted": "refuted",
     "C17_order_invariant_ex": "example",
+    "C17_order_invariant_partial": "partial",
+    "C17_pass_order_invariant": "full",
+    "C17_order_invariant_hyp_ex": "example",
 }
 TRUSTED = [
     "Coq 8.16.1 kernel (coqc; vm_compute for the correspondence and the concrete examples only)",
